@@ -72,7 +72,15 @@ public:
 
 	~CCsvWriteObjectScope()
 	{
-		mCsvWriter->NextLine();
+		try
+		{
+			mCsvWriter->NextLine();
+		}
+		catch (...)
+		{
+			// Destructor must not throw (would terminate the process), the error will be thrown at the end of serialization
+			GetContext().SetDeferredError(std::current_exception());
+		}
 	}
 
 	/// <summary>
